@@ -7,8 +7,10 @@ package mon
 import (
 	"encoding/json"
 	"fmt"
+	"math/bits"
 	"runtime/debug"
 	"strings"
+	"sync"
 	"sync/atomic"
 
 	"verif/internal/gen"
@@ -75,6 +77,7 @@ type Family struct {
 	N      int
 	Run    func(w *W, idx int)
 	Serial bool // runs alone on the main goroutine (it manages its own goroutines)
+	Env    int  // > 0: this many freshly drawn cases of the family are re-run under every setting of the env-sweep family (env.go)
 }
 
 // Prop describes one property's check.
@@ -134,6 +137,7 @@ type W struct {
 
 	heartbeat atomic.Uint64
 	tid       atomic.Int64
+	env       string // name of the env-sweep setting in force, "" outside the sweep
 }
 
 func newW(id int, cfg *Config) *W {
@@ -174,11 +178,68 @@ func (w *W) BucketN(name string, n int64) {
 }
 
 // Distinct records the hash of a case that is non-trivial by the property's rule.
-func (w *W) Distinct(h uint64) { w.distinct[h] = struct{}{} }
+func (w *W) Distinct(h uint64) {
+	w.distinct[h] = struct{}{}
+	if len(w.distinct) >= distinctSpill {
+		w.spillDistinct()
+	}
+}
+
+// A worker keeps exact hashes up to distinctSpill entries; beyond that they are folded into one process-wide
+// 2^30-bit hash bitmap whose number of set bits is a LOWER bound on the number of distinct hashes seen (two
+// hashes sharing a bit are counted once). This bounds the monitor's own memory (a 32-bit flavour has < 4 GiB).
+const (
+	distinctSpill    = 1 << 18
+	distinctSketchLg = 30
+)
+
+var (
+	sketchOnce sync.Once
+	sketch     []uint32
+	sketchUsed atomic.Bool
+)
+
+func (w *W) spillDistinct() {
+	if w.id < 0 { // scratch contexts are discarded
+		w.distinct = map[uint64]struct{}{}
+		return
+	}
+	sketchOnce.Do(func() { sketch = make([]uint32, 1<<(distinctSketchLg-5)) })
+	sketchUsed.Store(true)
+	for h := range w.distinct {
+		h ^= h >> 30
+		h *= 0xbf58476d1ce4e5b9
+		h ^= h >> 27
+		h *= 0x94d049bb133111eb
+		b := h >> (64 - distinctSketchLg)
+		p, m := &sketch[b>>5], uint32(1)<<(b&31)
+		for {
+			o := atomic.LoadUint32(p)
+			if o&m != 0 || atomic.CompareAndSwapUint32(p, o, o|m) {
+				break
+			}
+		}
+	}
+	w.distinct = map[uint64]struct{}{}
+}
+
+// sketchCount returns the number of set bits of the spill bitmap.
+func sketchCount() int64 {
+	var n int64
+	for _, x := range sketch {
+		n += int64(bits.OnesCount32(x))
+	}
+	return n
+}
 
 // DistinctExact adds n cases that are distinct and non-trivial by construction (exact loop
 // counters of complete enumerations; they are not hashed).
-func (w *W) DistinctExact(n int64) { w.exact += n }
+func (w *W) DistinctExact(n int64) {
+	if w.env != "" {
+		return // the env-sweep repeats cases of a complete enumeration: already counted
+	}
+	w.exact += n
+}
 
 // Digest folds a per-case result hash into an order-independent digest (used to compare builds).
 func (w *W) Digest(h uint64) { w.digest += h }
@@ -224,6 +285,9 @@ func (w *W) fail(sig string, detail D, inconclusive bool) {
 	fam, idx := "?", 0
 	if w.fam != nil {
 		fam, idx = w.fam.Name, w.idx
+	}
+	if w.env != "" && detail != nil {
+		detail["env_setting"] = w.env
 	}
 	b, err := json.Marshal(detail)
 	if err != nil {
